@@ -1,4 +1,5 @@
 import Hgxv.Model.C12
+import Hgxv.Proofs.C12LinkC02
 import Mathlib.Algebra.Order.Field.Rat
 import Mathlib.Algebra.Order.Field.Basic
 /-! # C12 — directed measures follow their definitions; exact ≤ strong ≤ weak reciprocity
@@ -223,3 +224,212 @@ example :
     recCount isStrong (bounded 3 es) 3 < recCount isWeak (bounded 3 es) 3 ∧
     total (bounded 3 es) 2 = 5 ∧ total (bounded 3 es) 3 = 1 := by
   decide
+
+/-! ## Links to the full container model C02 (`DirectedHypergraph`): the measures on objects reached by ANY history
+
+Helper lemmas: `Hgxv/Proofs/C12LinkC02.lean` (core Lean).  The map between the two models is the identity
+(`C12.DEdge = C02.Key`, pairs of sorted tuples of node ranks); `listing s` is the key list of `_edge_list` in creation
+order.  Nothing is assumed about the object beyond "reached by a history of public calls satisfying C02's quantifier"
+(`C02.Cmd.WF`: hyperedges handed to the constructor / `add_edge` / `add_edges` have duplicate-free, disjoint, non-empty
+sides): distinct canonical hyperedges, non-empty sides, endpoints are nodes, soundness and completeness of the two
+adjacency tables all come from C02's invariants (`C02.runCmds_all`). -/
+
+/-- `s` is one of the objects of a state reached from nothing by a finite sequence of constructor calls, copies and
+public mutating calls (same definition as `C02.Reachable` in `Props/C02.lean`) -/
+def C12.ReachableD (s : C02.Store) : Prop :=
+  ∃ (cs : List C02.Cmd) (slot : Nat), (∀ c ∈ cs, c.WF) ∧ AL.get? (C02.runCmds [] cs) slot = some s
+
+/-- **What C12's routines are given, for every history.**  After every history, for the object `s` in any slot: the
+abstract object the same history builds in that slot is `C02.abs s`; `get_edges()` answers `listing s`, which is the
+key list of the abstract object, and `get_nodes()` answers its node list; both are duplicate-free; every listed
+hyperedge is a canonical key (sorted, duplicate-free sides) with NON-EMPTY DISJOINT sides, all of whose nodes are
+listed by `get_nodes()`.  These are the modelling assumptions of `Model/C12.lean` ("list of distinct canonical
+hyperedges and the node list") and the hypothesis `hne` of `C12_order`, `C12_signature_cell`, `C12_signature_sum`. -/
+theorem C12_link_listing (cs : List C02.Cmd) (hcs : ∀ c ∈ cs, c.WF) (slot : Nat) (s : C02.Store)
+    (hs : AL.get? (C02.runCmds [] cs) slot = some s) :
+    AL.get? (C02.Spec.runCmds [] cs) slot = some (C02.abs s) ∧
+    C02.edges s .all false = some (listing s) ∧ listing s = (C02.abs s).keyList ∧
+    C02.nodes s = (C02.abs s).nodeList ∧ (listing s).Nodup ∧ (C02.nodes s).Nodup ∧
+    (∀ e ∈ listing s, e.1 ≠ [] ∧ e.2 ≠ [] ∧ C02.KeyWF e ∧ ∀ n, (n ∈ e.1 ∨ n ∈ e.2) → n ∈ C02.nodes s) := by
+  have g := good_of_history cs hcs slot s hs
+  refine ⟨abs_of_history cs hcs slot s hs, get_edges_eq s, listing_abs s, nodes_abs s, listing_nodup g,
+    nodes_nodup g, ?_⟩
+  intro e he
+  have h := listing_wf g e he
+  exact ⟨h.1.neS, h.1.neT, h.1, h.2⟩
+
+/-- **Degrees, every history.**  For every reachable object, every node `get_nodes()` lists and every admissible
+order/size filter (`t` = the size it selects, `none` = no filter): `get_source_edges` / `get_target_edges` answer
+EXACTLY the sub-list of `get_edges()` that C12's `inDegree` / `outDegree` count (same hyperedges, same order), so
+C12's degree on the object's listing is the length of the object's answer = the model object's `in_degree` /
+`out_degree`; on the abstract content of the history it is the number of stored (source, target) pairs passing the
+filter that have the node among their sources / targets (`C12_in_degree`), which is also what the abstract object
+answers. -/
+theorem C12_link_degrees (s : C02.Store) (hr : ReachableD s) (n : Nat) (hn : C02.checkNode s n = true)
+    (f : C02.Filt) (t : Option Nat) (hf : f.target = some t) :
+    C02.sourceEdges s n f = some ((listing s).filter (fun e => e.1.contains n && passes t e)) ∧
+    C02.targetEdges s n f = some ((listing s).filter (fun e => e.2.contains n && passes t e)) ∧
+    (C02.sourceEdges s n f).map List.length = some (inDegree (listing s) t n) ∧
+    (C02.targetEdges s n f).map List.length = some (outDegree (listing s) t n) ∧
+    C02.inDegree s n f = some (inDegree (listing s) t n) ∧
+    C02.outDegree s n f = some (outDegree (listing s) t n) ∧
+    inDegree (listing s) t n = (C02.abs s).keyList.countP (fun e => decide (n ∈ e.1) && passes t e) ∧
+    outDegree (listing s) t n = (C02.abs s).keyList.countP (fun e => decide (n ∈ e.2) && passes t e) ∧
+    (C02.abs s).inDegree n f = some (inDegree (C02.abs s).keyList t n) ∧
+    (C02.abs s).outDegree n f = some (outDegree (C02.abs s).keyList t n) := by
+  obtain ⟨cs, slot, hcs, hs⟩ := hr
+  have g := good_of_history cs hcs slot s hs
+  have ha : AL.has (C02.abs s).nodes n = true := by rw [C02.abs_has_node]; exact hn
+  have sd := spec_degrees (C02.abs s) n ha f t hf
+  refine ⟨sourceEdges_exact g n hn f t hf, targetEdges_exact g n hn f t hf, inDegree_link g n hn f t hf,
+    outDegree_link g n hn f t hf, inDegree_link g n hn f t hf, outDegree_link g n hn f t hf, ?_, ?_, sd.1, sd.2⟩
+  · rw [← listing_abs]; exact C12_in_degree _ _ _
+  · rw [← listing_abs]; exact C12_out_degree _ _ _
+
+/-- where the object has no degree: a node `get_nodes()` does not list, or `order` and `size` given together - the
+role listings raise, so `in_degree` / `out_degree` raise (C12's functions are never compared there) -/
+theorem C12_link_degrees_rejected (s : C02.Store) (hr : ReachableD s) (n : Nat) (f : C02.Filt)
+    (h : C02.checkNode s n = false ∨ f = .both) :
+    C02.inDegree s n f = none ∧ C02.outDegree s n f = none := by
+  obtain ⟨cs, slot, hcs, hs⟩ := hr
+  have g := good_of_history cs hcs slot s hs
+  rcases h with h | h
+  · have r := role_absent s g.inv n h f
+    simp [C02.inDegree, C02.outDegree, r.1, r.2]
+  · subst h
+    have r := role_both s n
+    simp [C02.inDegree, C02.outDegree, r.1, r.2]
+
+/-- **Degree sequences, every history.**  For every reachable object and admissible filter, the object's
+`in_degree_sequence` / `out_degree_sequence` ARE C12's sequences computed from `get_nodes()` and `get_edges()`; they
+list exactly the object's nodes (= the nodes of the abstract content), each once, in node order. -/
+theorem C12_link_sequences (s : C02.Store) (hr : ReachableD s) (f : C02.Filt) (t : Option Nat)
+    (hf : f.target = some t) :
+    C02.inDegreeSeq s f = some (inDegreeSeq (C02.nodes s) (listing s) t) ∧
+    C02.outDegreeSeq s f = some (outDegreeSeq (C02.nodes s) (listing s) t) ∧
+    (inDegreeSeq (C02.nodes s) (listing s) t).map (·.1) = (C02.abs s).nodeList ∧
+    (outDegreeSeq (C02.nodes s) (listing s) t).map (·.1) = (C02.abs s).nodeList ∧
+    (C02.abs s).nodeList.Nodup := by
+  obtain ⟨cs, slot, hcs, hs⟩ := hr
+  have g := good_of_history cs hcs slot s hs
+  have sq := C12_sequences (C02.nodes s) (listing s) t
+  refine ⟨inDegreeSeq_link g f t hf, outDegreeSeq_link g f t hf, ?_, ?_, ?_⟩
+  · rw [sq.1]; exact nodes_abs s
+  · rw [sq.2.1]; exact nodes_abs s
+  · rw [← nodes_abs]; exact nodes_nodup g
+
+/-- **exact ≤ strong ≤ weak for every history.**  For every reachable object, every bound and every size, the three
+ratios computed from what `get_edges()` lists are ordered and lie in [0, 1] (`C12_order`'s hypothesis is discharged by
+C02's invariant); for a size within the bound, the common denominator `tot[k]` is the number of hyperedges the
+object's own `get_edges(size=k)` lists. -/
+theorem C12_link_order (s : C02.Store) (hr : ReachableD s) (m k : Nat) :
+    reciprocity isExact (listing s) m k ≤ reciprocity isStrong (listing s) m k ∧
+    reciprocity isStrong (listing s) m k ≤ reciprocity isWeak (listing s) m k ∧
+    0 ≤ reciprocity isExact (listing s) m k ∧ reciprocity isWeak (listing s) m k ≤ 1 ∧
+    (2 ≤ k → k ≤ m → ∃ L, C02.edges s (.size k) false = some L ∧ total (bounded m (listing s)) k = L.length) := by
+  obtain ⟨cs, slot, hcs, hs⟩ := hr
+  have g := good_of_history cs hcs slot s hs
+  have o := C12_order (listing s) m k (listing_nonempty g)
+  refine ⟨o.1, o.2, (C12_range _ _ _ _).1, (C12_range _ _ _ _).2, ?_⟩
+  intro h1 h2
+  exact ⟨_, get_edges_size s k, total_bounded _ m k ⟨h1, h2⟩⟩
+
+/-- **"exactly reciprocated" is the object's `check_edge` of the reverse.**  For every reachable object and every
+hyperedge `e` the routines look at: the model's test `(target, source) in edge_set` has the value the object's
+`check_edge((target, source))` returns. -/
+theorem C12_link_exact_check (s : C02.Store) (hr : ReachableD s) (m : Nat) (e : DEdge)
+    (he : e ∈ bounded m (listing s)) :
+    C02.checkEdge s (C02.RawEdge.ofKey (e.2, e.1)) = some (isExact (bounded m (listing s)) e) := by
+  obtain ⟨cs, slot, hcs, hs⟩ := hr
+  exact isExact_check (good_of_history cs hcs slot s hs) m e he
+
+/-- **Signature vector, every history.**  For every reachable object and bound `m`: the hyperedges the routine loops
+over, `get_edges(size=m, up_to=True)`, are the selection the model makes of `get_edges()`; cell `(a, b)` with
+`a + b ≤ m` is the number of stored (source, target) pairs of the abstract content with `a` sources and `b` targets;
+the cells sum to the length of the object's `get_edges(size=m, up_to=True)` answer.  With the default bound
+`max(get_sizes())` every hyperedge is counted (the sum is `num_edges()`); without hyperedges there is no maximum
+(the routine returns the empty vector). -/
+theorem C12_link_signature (s : C02.Store) (hr : ReachableD s) (m : Nat) :
+    (∃ L, C02.edges s (.size m) true = some L ∧ L = (listing s).filter (fun e => esize e ≤ m) ∧
+      (signature (listing s) m).sum = L.length) ∧
+    (∀ a b, 1 ≤ a → 1 ≤ b → a + b ≤ m →
+      (signature (listing s) m)[(a - 1) * (m - 1) + (b - 1)]? =
+        some ((C02.abs s).keyList.countP (fun e => e.1.length == a && e.2.length == b))) ∧
+    (C02.maxSize s = some m → (signature (listing s) m).sum = C02.numEdges s) ∧
+    (C02.maxSize s = none → listing s = [] ∧ C02.numEdges s = 0) := by
+  obtain ⟨cs, slot, hcs, hs⟩ := hr
+  have g := good_of_history cs hcs slot s hs
+  have hne := listing_nonempty g
+  have hsum := C12_signature_sum (listing s) m hne
+  have hlen : C02.numEdges s = (listing s).length := by simp [C02.numEdges, listing, AL.keys]
+  refine ⟨⟨_, get_edges_upto s m, rfl, ?_⟩, ?_, ?_, ?_⟩
+  · rw [hsum, List.countP_eq_length_filter]
+  · intro a b ha hb hab
+    rw [← listing_abs]
+    exact C12_signature_cell (listing s) m a b ha hb hab hne
+  · intro hM
+    rw [hsum, hlen, List.countP_eq_length_filter]
+    congr 1
+    exact List.filter_eq_self.mpr (fun e he => decide_eq_true (maxSize_bound s m hM e he))
+  · intro hN
+    have := maxSize_none s hN
+    exact ⟨this, by rw [hlen, this]; rfl⟩
+
+/-! ### non-vacuity of the link theorems: a concrete history
+
+Constructor with three hyperedges, insertion, removal (id gap), insertion in unsorted order, a hyperedge shrunk by
+`remove_node(keep_edges=True)` (re-inserted under a fresh id at the end of the listing), a copy that is changed
+afterwards.  The object in slot 0 ends with the six hyperedges of the example above (exact < strong < weak), node 9
+isolated, node 8 gone. -/
+def C12.exampleHistory : List C02.Cmd :=
+  [ .new 0 false none none (some [.ofLists [1] [2], .ofLists [9] [8], .ofLists [2] [1]]) none none,
+    .op 0 (.addEdge (.ofLists [1] [3]) none none),
+    .op 0 (.removeEdge (.ofLists [9] [8])),
+    .op 0 (.addEdge (.ofLists [7, 3] [1]) none none),
+    .op 0 (.addEdge (.ofLists [8, 5] [6]) none none),
+    .op 0 (.removeNode 8 true),
+    .op 0 (.addEdge (.ofLists [4] [5]) none none),
+    .copy 0 1,
+    .op 1 (.removeNode 1 false) ]
+
+def C12.exampleObject : C02.Store := (AL.get? (C02.runCmds [] C12.exampleHistory) 0).getD {}
+
+example : ReachableD C12.exampleObject := ⟨C12.exampleHistory, 0, C02.cmds_WF_of_ok _ (by decide), by decide⟩
+/-- the listings of the object (note the re-inserted `((5,),(6,))` after `((3,7),(1,))`) and of the changed copy -/
+example : listing C12.exampleObject = [([1], [2]), ([2], [1]), ([1], [3]), ([3, 7], [1]), ([5], [6]), ([4], [5])] ∧
+    C02.nodes C12.exampleObject = [1, 2, 9, 3, 7, 5, 6, 4] ∧
+    (AL.get? (C02.runCmds [] C12.exampleHistory) 1).map listing = some [([5], [6]), ([4], [5])] := by decide
+/-- the hypotheses of `C12_link_degrees` hold for node 1 and each kind of filter; the values are non-trivial -/
+example : C02.checkNode C12.exampleObject 1 = true ∧ C02.Filt.target (.size 2) = some (some 2) ∧
+    C02.Filt.target (.order 2) = some (some 3) ∧
+    C02.inDegree C12.exampleObject 1 .all = some 2 ∧ inDegree (listing C12.exampleObject) none 1 = 2 ∧
+    C02.outDegree C12.exampleObject 1 (.size 2) = some 1 ∧ outDegree (listing C12.exampleObject) (some 2) 1 = 1 ∧
+    C02.outDegree C12.exampleObject 1 (.order 2) = some 1 ∧ outDegree (listing C12.exampleObject) (some 3) 1 = 1 ∧
+    C02.sourceEdges C12.exampleObject 1 .all = some [([1], [2]), ([1], [3])] := by decide
+/-- the rejections are real: node 8 was removed, and `both` raises -/
+example : C02.checkNode C12.exampleObject 8 = false ∧ C02.inDegree C12.exampleObject 8 .all = none ∧
+    C02.outDegree C12.exampleObject 1 .both = none := by decide
+/-- the sequences of the object -/
+example : C02.inDegreeSeq C12.exampleObject (.size 2) =
+      some [(1, 2), (2, 1), (9, 0), (3, 0), (7, 0), (5, 1), (6, 0), (4, 1)] ∧
+    inDegreeSeq (C02.nodes C12.exampleObject) (listing C12.exampleObject) (some 2) =
+      [(1, 2), (2, 1), (9, 0), (3, 0), (7, 0), (5, 1), (6, 0), (4, 1)] ∧
+    C02.outDegreeSeq C12.exampleObject .all =
+      some [(1, 2), (2, 1), (9, 0), (3, 1), (7, 0), (5, 1), (6, 1), (4, 0)] := by decide
+/-- on this object the three ratios differ: exact < strong for size 2, strong < weak for size 3 -/
+example : recCount isExact (bounded 3 (listing C12.exampleObject)) 2 <
+      recCount isStrong (bounded 3 (listing C12.exampleObject)) 2 ∧
+    recCount isStrong (bounded 3 (listing C12.exampleObject)) 3 <
+      recCount isWeak (bounded 3 (listing C12.exampleObject)) 3 ∧
+    C02.edges C12.exampleObject (.size 2) false =
+      some [([1], [2]), ([2], [1]), ([1], [3]), ([5], [6]), ([4], [5])] ∧
+    total (bounded 3 (listing C12.exampleObject)) 2 = 5 := by decide
+/-- `check_edge` of the reverse: `((1,),(2,))` is exactly reciprocated, `((1,),(3,))` is not -/
+example : ([1], [2]) ∈ bounded 3 (listing C12.exampleObject) ∧ ([1], [3]) ∈ bounded 3 (listing C12.exampleObject) ∧
+    C02.checkEdge C12.exampleObject (C02.RawEdge.ofKey ([2], [1])) = some true ∧
+    C02.checkEdge C12.exampleObject (C02.RawEdge.ofKey ([3], [1])) = some false := by decide
+/-- signature: default bound 3, cells `(1,1)` = 5, `(2,1)` = 1, sum = 6 = `num_edges()`; bound 2 drops one hyperedge -/
+example : C02.maxSize C12.exampleObject = some 3 ∧ signature (listing C12.exampleObject) 3 = [5, 0, 1, 0] ∧
+    C02.numEdges C12.exampleObject = 6 ∧ signature (listing C12.exampleObject) 2 = [5] ∧
+    (C02.edges C12.exampleObject (.size 2) true).map List.length = some 5 ∧
+    C02.maxSize (C02.clear C12.exampleObject) = none := by decide
